@@ -12,6 +12,7 @@ import (
 	"net"
 	"net/http"
 	"sync"
+	"time"
 )
 
 // ErrCut is what a reader/writer sees after the exchange was cut by the script.
@@ -97,6 +98,10 @@ type respWriter struct {
 	header  http.Header
 	status  int          // status chosen by WriteHeader (0: none yet)
 	pending bytes.Buffer // written but not yet flushed
+	// firstFlushLag: the first explicit Flush returns this long (virtual time) after the data became
+	// visible to the client, as a slow link would make it.
+	firstFlushLag time.Duration
+	flushed       bool
 }
 
 func (w *respWriter) Header() http.Header { return w.header }
@@ -146,7 +151,12 @@ func (w *respWriter) Write(p []byte) (int, error) {
 func (w *respWriter) Flush() {
 	w.e.mu.Lock()
 	w.flushLocked()
+	first := !w.flushed
+	w.flushed = true
 	w.e.mu.Unlock()
+	if first && w.firstFlushLag > 0 {
+		time.Sleep(w.firstFlushLag)
+	}
 }
 
 // body is the client-side response body.
@@ -227,6 +237,9 @@ type Transport struct {
 	Chunks []int
 	// Fail, if set, is consulted first: a non-nil error is returned from RoundTrip (transport failure).
 	Fail func(req *http.Request) error
+	// FirstFlushLag, if positive, makes the first Flush of every GET response return that long after its
+	// data reached the client (the client can act on an SSE "endpoint" event before the server goes on).
+	FirstFlushLag time.Duration
 
 	mu        sync.Mutex
 	exchanges []*Exchange
@@ -295,6 +308,9 @@ func (t *Transport) RoundTrip(req *http.Request) (*http.Response, error) {
 		sreq.Body = http.NoBody
 	}
 	w := &respWriter{e: e, header: http.Header{}}
+	if req.Method == "GET" {
+		w.firstFlushLag = t.FirstFlushLag
+	}
 
 	go func() {
 		defer func() {
